@@ -396,6 +396,13 @@ func (l *listener) Accept() (transport.Pipe, error) {
 
 func (l *listener) handler(ws *websocket.Conn, req *http.Request) {
 	l.lock.Lock()
+	if !l.running {
+		// Closed while this connection was being upgraded: nobody
+		// will ever accept it, so do not park it.
+		l.lock.Unlock()
+		_ = ws.Close()
+		return
+	}
 
 	w := &wsPipe{
 		ws:      ws,
